@@ -221,11 +221,30 @@ class ExprMixin:
             h = self.attr_handlers.get((ty.key, attr))
             if h:
                 return h(self, base, node, st)
+            cv = self.class_constant(info, ty.cls, attr, node)
+            if cv is not None:
+                return cv
             raise Unsupported("attribute %s of %s" % (attr, ty.cls), node)
         h = self.attr_handlers.get((ty.key, attr))
         if h:
             return h(self, base, node, st)
         raise Unsupported("attribute .%s of %s" % (attr, ty), node)
+
+    def class_constant(self, info, cls, attr, node):
+        """`self.X` where X is assigned a literal in the class body of the real source (read on every run)."""
+        from . import front
+
+        mod = front.module(info["module"])
+        cdef = mod.classes.get(info.get("source_class", cls))
+        if cdef is None:
+            return None
+        for b in cdef.body:
+            if isinstance(b, ast.Assign) and len(b.targets) == 1 and isinstance(b.targets[0], ast.Name) and b.targets[0].id == attr and isinstance(b.value, ast.Constant):
+                rec = "class constant %s.%s.%s = %r" % (info["module"], cdef.name, attr, b.value.value)
+                if rec not in self.inlined:
+                    self.inlined.append(rec)
+                return self.e_Constant(b.value, None)
+        return None
 
     def dotted(self, node):
         parts = []
@@ -385,6 +404,8 @@ class ExprMixin:
         if isinstance(ty, TOpt):
             cont = self.coerce(cont, ty.elem, node, "container of `in`")
             ty = cont.ty
+        if ty == TString and x.ty == TString:
+            return z3.Contains(cont.t, x.t)  # substring test
         if isinstance(ty, (TSet, TDict)):
             kty = ty.elem if isinstance(ty, TSet) else ty.k
             arr = cont.t if isinstance(ty, TSet) else d_dom(cont.t)
@@ -452,7 +473,21 @@ class ExprMixin:
     # -- displays ------------------------------------------------------------
     def e_Tuple(self, node, st):
         if any(isinstance(e, ast.Starred) for e in node.elts):
-            raise Unsupported("starred tuple display", node)
+            # (a, b, *xs, *ys): a sequence; modelled as a list of the common element type (tuples are immutable, so no aliasing matters)
+            acc = None
+            for e in node.elts:
+                if isinstance(e, ast.Starred):
+                    part = self.eval(e.value, st)
+                    if not isinstance(part.ty, TList):
+                        raise Unsupported("starred element of type %s" % part.ty, node)
+                else:
+                    x = self.eval(e, st)
+                    lty = TList(x.ty)
+                    one = z3.Const(fresh_name("single"), sort_of(lty))
+                    self.fact(st, z3.And(l_len(one) == 1, l_at(one, 0) == x.t))
+                    part = Val(lty, one)
+                acc = part if acc is None else self.list_concat(acc, part, st)
+            return acc
         vals = [self.eval(e, st) for e in node.elts]
         if any(v.ty.key in ("None", "LambdaAst") or isinstance(v.ty, TObj) or not z3.is_expr(v.t) for v in vals):
             # heterogeneous tuple of non-sorted values: kept Python-side (hash tuples)
@@ -551,6 +586,15 @@ class ExprMixin:
             if z3.is_int_value(i):
                 return Val(ty.elems[i.as_long()], t_get(base.t, i.as_long()))
             raise Unsupported("tuple index must be constant", node)
+        if ty == TString:
+            # s[i]: the one-character string at i (negative indices count from the end); IndexError outside
+            i = self.coerce(idx, TInt, node).t
+            n = z3.Length(base.t)
+            self.hazard("IndexError", z3.And(-n <= i, i < n), node, "string index")
+            if z3.is_int_value(i):
+                k = i.as_long()
+                return Val(TString, z3.SubString(base.t, i if k >= 0 else n + i, 1))
+            return Val(TString, z3.SubString(base.t, z3.If(i < 0, i + n, i), 1))
         h = self.index_handlers.get(ty.key)
         if h:
             return h(self, base, idx, node, st)
@@ -563,6 +607,18 @@ class ExprMixin:
         h = self.slice_handlers.get(ty.key)
         if h:
             return h(self, base, sl, node, st)
+        if ty == TString:
+            n = z3.Length(base.t)
+
+            def sclamp(e, default):
+                if e is None:
+                    return default
+                k = self.coerce(self.eval(e, st), TInt, node).t
+                return z3.simplify(z3.If(k < 0, z3.If(k + n < 0, 0, k + n), z3.If(k > n, n, k)))
+
+            lo = sclamp(sl.lower, z3.IntVal(0))
+            hi = sclamp(sl.upper, n)
+            return Val(TString, z3.SubString(base.t, lo, z3.If(hi - lo < 0, 0, hi - lo)))
         if not isinstance(ty, TList):
             raise Unsupported("slice of %s" % ty, node)
         n = l_len(base.t)
@@ -586,6 +642,19 @@ class ExprMixin:
         return Val(ty, R)
 
     def e_JoinedStr(self, node, st):
+        if self.string_mode:
+            parts = []
+            for v in node.values:
+                if isinstance(v, ast.Constant):
+                    parts.append(z3.StringVal(v.value))
+                    continue
+                if v.conversion != -1 or v.format_spec is not None:
+                    raise Unsupported("f-string conversion / format spec", node)
+                x = self.eval(v.value, st)
+                if x.ty != TString:  # format() of a str is the str itself; nothing else is formatted in the codec
+                    raise Unsupported("f-string field of type %s" % x.ty, node)
+                parts.append(x.t)
+            return Val(TString, parts[0] if len(parts) == 1 else z3.Concat(*parts))
         h = self.fstring_handler
         if h is None:
             raise Unsupported("f-string", node)
